@@ -106,12 +106,12 @@ func checkC03(r *core.Run) {
 	sv := p.Func(secp + ".SchnorrVerify")
 	guardOb(r, p, "R-C03-ranges", "schnorr/s<n", "BIP340 rejects s >= n", an.GuardSpec{Fn: sv, Dom: "returns", Fail: falseRes,
 		Match: an.AnyOf(
-			an.MatchBoolCallAtoms(false, "(*"+secp+".Number).is_below", "global:"+secp+".TheCurve", "~.Order", "param:sig"),
-			an.MatchCmpConst(0, token.GEQ, "call:(*math/big.Int).Cmp", "global:"+secp+".TheCurve", "~.Order", "param:sig"))})
+			an.MatchBoolCallAtoms(false, "(*"+secp+".Number).is_below", "global:"+secp+".TheCurve", "~.Order", "param#1"),
+			an.MatchCmpConst(0, token.GEQ, "call:(*math/big.Int).Cmp", "global:"+secp+".TheCurve", "~.Order", "param#1"))})
 	guardOb(r, p, "R-C03-ranges", "schnorr/r<p", "BIP340 rejects r >= p", an.GuardSpec{Fn: sv, Dom: "returns", Fail: falseRes,
-		Match: overflowTest(func(a ssa.Value) bool { return an.HasAll(an.Atoms(a), "param:sig") })})
+		Match: overflowTest(func(a ssa.Value) bool { return an.HasAll(an.Atoms(a), "param#1") })})
 	guardOb(r, p, "R-C03-ranges", "schnorr/key-liftable", "BIP340 rejects a key that cannot be lifted", an.GuardSpec{Fn: sv, Dom: "returns", Fail: falseRes,
-		Match: an.MatchBoolCallAtoms(false, "(*"+secp+".XY).ParseXOnlyPubkey", "param:pkey")})
+		Match: an.MatchBoolCallAtoms(false, "(*"+secp+".XY).ParseXOnlyPubkey", "param#0")})
 	guardOb(r, p, "R-C03-ranges", "schnorr/R-not-infinity", "BIP340 rejects an infinite nonce point", an.GuardSpec{Fn: sv, Dom: "returns", Fail: falseRes,
 		Match: func(iff *ssa.If) (bool, bool) {
 			a := an.Atoms(iff.Cond)
@@ -142,7 +142,7 @@ func checkC03(r *core.Run) {
 	// taproot tweak: internal key must lift
 	cp := p.Func(secp + ".CheckPayToContract")
 	guardOb(r, p, "R-C03-ranges", "taproot/internal-key-liftable", "tweak check rejects an unliftable internal key", an.GuardSpec{Fn: cp, Dom: "returns", Fail: falseRes,
-		Match: an.MatchBoolCallAtoms(false, "(*"+secp+".XY).ParseXOnlyPubkey", "param:base")})
+		Match: an.MatchBoolCallAtoms(false, "(*"+secp+".XY).ParseXOnlyPubkey", "param#1")})
 	ta := p.Func(secp + ".(*XY).XOnlyPubkeyTweakAddCheck")
 	guardOb(r, p, "R-C03-ranges", "taproot/tweak-add-ok", "tweak check rejects when the tweaked point is infinity", an.GuardSpec{Fn: ta, Dom: "returns", Fail: falseRes,
 		Match: an.MatchBoolCall(false, "(*"+secp+".XY).ECPublicTweakAdd")})
@@ -218,7 +218,7 @@ func c03Parser(r *core.Run, p *core.Program, name string, minSet, maxSet int) {
 	nset := 0
 	for _, c := range sets {
 		arg := c.Common().Args[1]
-		if !an.HasAll(an.Atoms(arg), "param:pub") {
+		if !an.HasAll(an.Atoms(arg), "param#1") {
 			continue
 		}
 		nset++
@@ -228,7 +228,7 @@ func c03Parser(r *core.Run, p *core.Program, name string, minSet, maxSet int) {
 		guardOb(r, p, "R-C03-keys", key, "coordinate bytes >= p rejected before use", an.GuardSpec{Fn: fn, Fail: falseRes, Anchor: ins,
 			Match: overflowTest(func(a ssa.Value) bool {
 				sl2, _ := a.(*ssa.Slice)
-				return sliceRangeKey(sl2) == sliceRangeKey(sl) && an.HasAll(an.Atoms(a), "param:pub")
+				return sliceRangeKey(sl2) == sliceRangeKey(sl) && an.HasAll(an.Atoms(a), "param#1")
 			})})
 	}
 	r.Check(nset >= minSet && nset <= maxSet+2, "R-C03-keys", name+"/coordinates", p.Pos(fn.Pos()), fmt.Sprintf("%d coordinate loads from the input", nset), fmt.Sprintf("unexpected number of coordinate loads: %d", nset))
@@ -528,9 +528,9 @@ func c03Signers(r *core.Run, p *core.Program) {
 	ss := p.Func(secp + ".SchnorrSign")
 	nilRes := an.FailKind{Result: 0, Kind: "nil"}
 	guardOb(r, p, rule, "schnorr-sign/d!=0", "BIP340 signer rejects d == 0", an.GuardSpec{Fn: ss, Fail: nilRes, Dom: "returns",
-		Match: an.MatchBoolCallAtoms(true, "(*"+secp+".Number).is_zero", "param:sk")})
+		Match: an.MatchBoolCallAtoms(true, "(*"+secp+".Number).is_zero", "param#1")})
 	guardOb(r, p, rule, "schnorr-sign/d<n", "BIP340 signer rejects d >= n", an.GuardSpec{Fn: ss, Fail: nilRes, Dom: "returns",
-		Match: an.MatchBoolCallAtoms(false, "(*"+secp+".Number).is_below", "param:sk", "global:"+secp+".TheCurve", "~.Order")})
+		Match: an.MatchBoolCallAtoms(false, "(*"+secp+".Number).is_below", "param#1", "global:"+secp+".TheCurve", "~.Order")})
 	guardOb(r, p, rule, "schnorr-sign/k!=0", "BIP340 signer rejects k' == 0", an.GuardSpec{Fn: ss, Fail: nilRes, Dom: "returns",
 		Match: an.MatchBoolCallAtoms(true, "(*"+secp+".Number).is_zero", "call:(hash.Hash).Sum")})
 	guardOb(r, p, rule, "schnorr-sign/self-verify", "BIP340 signer verifies its own signature before returning it", an.GuardSpec{Fn: ss, Fail: nilRes, Dom: "returns",
@@ -550,6 +550,25 @@ func c03Terms(p *core.Program) *an.TermInterp {
 			return strings.ReplaceAll(s, "(*math/big.Int).", "big.")
 		},
 		MaxPaths: 128,
+		// the formulas below name the operands; the names are attached to parameter positions here, so that
+		// the source may call them anything
+		ParamNamesFor: func(f *ssa.Function) []string {
+			switch f.Name() {
+			case "recompute":
+				return []string{"sig", "r2", "pubkey", "message"}
+			case "Verify":
+				return []string{"r", "pubkey", "message"}
+			case "Sign":
+				return []string{"sig", "seckey", "message", "nonce", "recid"}
+			case "SchnorrVerify":
+				return []string{"pkey", "sig", "msg"}
+			case "SchnorrsigChallenge":
+				return []string{"e", "r32", "msg32", "pubkey32"}
+			case "SchnorrSign":
+				return []string{"m", "sk", "a"}
+			}
+			return nil
+		},
 	})
 }
 
